@@ -39,6 +39,7 @@ var c07Reqs = []c07Req{
 	{"invalid", `{ nope node { zzz } }`, nil},
 	{"scalars", `{ x1 x2 leafy { s i } }`, nil},
 	{"typed-fragment-merge", `{ a { ...P } c { ...P } nodes(n:3) { ...P } } fragment P on Node { peer(as:"B") { id } ... on A { peer(as:"B") { ... on B { bOnly } } } ... on C { peer(as:"B") { name } } }`, nil},
+	{"fieldresolver-static-args", `{ plainFR { echoArg(x:5, y:2) e2: echoArg name } x1 }`, nil},
 	{"nested-single-possible", `{ nodes(n:3) { id ... on A { solo { ... on B { bOnly } } } ... on C { solo { ... on B { id kind } } } } c { solo { ... on B { u { ... on A { solo { ... on B { id } } } } } } } }`, nil},
 	// literal variants of one shape: under the normalising cache they share a plan
 	// (same text length: with Normalize on, error locations of a shared plan are
@@ -49,7 +50,14 @@ var c07Reqs = []c07Req{
 }
 
 // index of the first literal variant
-const c07LitBase = 14
+var c07LitBase = func() int {
+	for i, r := range c07Reqs {
+		if r.Name == "lit-1" {
+			return i
+		}
+	}
+	panic("c07: lit-1 missing")
+}()
 
 type C07Op struct {
 	Kind string `json:"kind"` // do | cache | plan | validate | reset
